@@ -42,7 +42,7 @@ RAISING_FUNCS = {
     "urllib.parse.urlparse": "urlparse",
     "sphinx.util.parselinenos": "parselinenos",
     "json.dumps": "json.dumps", "json.loads": "json.loads",
-    "os.path.relpath": "os.path.relpath",
+    "os.path.relpath": "os.path.relpath", "os.access": "os.access",
     "zlib.decompressobj": "zlib.decompress", "zlib.decompress": "zlib.decompress",
     "docutils.utils.code_analyzer.Lexer": "lexer.init",
     "docutils.parsers.rst.directives.choice": "option_converter",
@@ -108,6 +108,12 @@ LOCAL_CALLABLES = {  # calls through local variables holding third-party / user 
 }
 IGNORED_LOCAL_CALLABLES = {"directive_class", "node_cls", "klass", "warning", "test_func", "stringify", "option_line",
                            "convert_opt", "_restore", "_"}
+
+
+# functions of the transform phase: besides calls, every subscript load / del, list.remove and int() on doctree
+# attributes is a site there (the data are node attributes produced from user text)
+TRANSFORM_PHASE = [("myst_parser/mdit_to_docutils/transforms.py", ""), ("myst_parser/parsers/docutils_.py", "Parser.parse"),
+                   ("myst_parser/parsers/sphinx_.py", "MystParser.parse")]
 
 
 class Untranslatable(Exception):
@@ -213,6 +219,11 @@ class ModuleScan(ast.NodeVisitor):
     def add_site(self, node, callee):
         fn = self.func_name()
         idx = sum(1 for s in self.sites if s["func"] == fn and s["callee"] == callee)
+        if not hasattr(node, "func"):
+            self.sites.append({"file": self.rel, "func": fn, "line": node.lineno, "callee": callee, "idx": idx,
+                               "expr": ast.unparse(node), "end_line": getattr(node, "end_lineno", node.lineno),
+                               "handlers": list(dict.fromkeys(self.handlers_here()))})
+            return
         self.sites.append({"file": self.rel, "func": fn, "line": node.lineno, "callee": callee, "idx": idx,
                            "expr": ast.unparse(node.func), "end_line": getattr(node, "end_lineno", node.lineno),
                            "handlers": list(dict.fromkeys(self.handlers_here()))})
@@ -416,7 +427,29 @@ class ModuleScan(ast.NodeVisitor):
                 return None
         raise Untranslatable(f"{self.rel}:{node.lineno}: call of {q} is not classified (raising or total)")
 
+    def in_transform_phase(self):
+        fn = self.func_name()
+        return any(self.rel == f and fn.startswith(p) for f, p in TRANSFORM_PHASE)
+
+    def visit_AnnAssign(self, node):
+        # the annotation is not executed for locals: skip it (dict[str, ...] is not a subscript site)
+        if node.value is not None:
+            self.visit(node.value)
+        self.visit(node.target)
+
+    def visit_Subscript(self, node):
+        if self.func_stack and self.in_transform_phase() and isinstance(node.ctx, (ast.Load, ast.Del)) \
+                and not isinstance(node.slice, ast.Slice):
+            txt = ast.unparse(node).replace("|", "/").replace(";", ",").replace('"', "'")
+            self.add_site(node, "subscript:" + txt)
+        self.generic_visit(node)
+
     def visit_Call(self, node):
+        if self.func_stack and self.in_transform_phase() and isinstance(node.func, ast.Attribute):
+            if node.func.attr == "remove":
+                self.add_site(node, "list.remove:" + ast.unparse(node.func.value).replace("|", "/"))
+            elif node.func.attr == "replace" and len(node.args) == 2 and "parent" in ast.unparse(node.func.value):
+                self.add_site(node, "list.remove:" + ast.unparse(node.func.value).replace("|", "/") + ".replace")
         try:
             callee = self.classify_call(node)
         except Untranslatable as e:
